@@ -11,15 +11,17 @@ Value token `k/p/b` (key number, payload, kind). Operand token:
   set in iteration order, `L|v,v,…` a list, `self` the receiver itself.
 Output (one line per input line): `<out> ;; <state>`.
 
-Key codes (`Int`): str "k<n>" ↦ n, int n ↦ 2000+n, str "k" ↦ 3000,
+Key codes (`Int`): str "k<n>" ↦ n, int n ↦ 2000+n, str "k" ↦ 3000, str "" ↦ 3001,
 tuple ("notspec", k, p) ↦ 4000+10k+p.
 
 Universes (what the Python value behind `k/p/b` is — see `real_value` in corr_C14.py):
-  self    no key function, KeyedSet[str,str]:   0 "k<k>"  1 int k  4 ["k<k>"]
-  tuple   key=x[0], KeyedSet[tuple,str]:        0 ("k<k>",p)  1 ["k<k>",p]  2 (k,p)  3 "k<k>"  4 int k  5 ()
-  spec    keyed spec class, KeyedSet[It,str]:   0 It("k<k>",p)  1 ("notspec",k,p)  2 It(k,p)  3 "k<k>"  4 [k]
-  unhash  key=x[0], KeyedSet[list,str]:         0 ["k<k>",p]  1 ("k<k>",p)  2 [k,p]  3 "k<k>"  4 int k  5 []
-  ambig   key=x//10, KeyedSet[int,int]:         0 int 10k+p  4 "k<k>"
+  self    no key function, KeyedSet[str,str]:   0 "k<k>"  1 int k  4 ["k<k>"]  6 ""
+  tuple   key=x[0], KeyedSet[tuple,str]:        0 ("k<k>",p)  1 ["k<k>",p]  2 (k,p)  3 "k<k>"  4 int k  5 ()  6 ("",p)
+  spec    keyed spec class, KeyedSet[It,str]:   0 It("k<k>",p)  1 ("notspec",k,p)  2 It(k,p)  3 "k<k>"  4 [k]  6 It("",p)
+          (It(…, p=0) is falsy: the class defines __bool__)
+  unhash  key=x[0], KeyedSet[list,str]:         0 ["k<k>",p]  1 ("k<k>",p)  2 [k,p]  3 "k<k>"  4 int k  5 []  6 ["",p]
+  ambig   key=x//10, KeyedSet[int,int]:         0 int 10k+p (int 0: falsy item, falsy key)  4 "k<k>"
+  bylen   key=len, KeyedSet[list,int]:          0 list of length k ([] / [p] / [p,0])  1 the same as a tuple  3 int k
 -/
 open SpecVerif.Py SpecVerif.C14
 
@@ -41,56 +43,56 @@ def parseVal (s : String) : Option Val :=
 def parseVals (s : String) : Option (List Val) :=
   if s == "" then some [] else (s.splitOn ",").mapM parseVal
 
-inductive Univ | self | tuple | spec | unhash | ambig
+inductive Univ | self | tuple | spec | unhash | ambig | bylen
   deriving DecidableEq
 
 def parseUniv : String → Option Univ
   | "self" => some .self | "tuple" => some .tuple | "spec" => some .spec
-  | "unhash" => some .unhash | "ambig" => some .ambig | _ => none
+  | "unhash" => some .unhash | "ambig" => some .ambig | "bylen" => some .bylen | _ => none
 
-def isStrKey (c : Int) : Bool := (0 ≤ c && c < 1000) || c == 3000
+def isStrKey (c : Int) : Bool := (0 ≤ c && c < 1000) || c == 3000 || c == 3001
 def isIntKey (c : Int) : Bool := 2000 ≤ c && c < 3000
 
 def mkCfg (u : Univ) (typed : Bool) : Cfg Val Int :=
   match u with
   | .self =>
     { keyOf := fun x => match x.b with
-        | 0 => .ok x.k | 1 => .ok (2000 + x.k) | _ => .error .typeError
+        | 0 => .ok x.k | 1 => .ok (2000 + x.k) | 6 => .ok 3001 | _ => .error .typeError
       asKey := fun x => match x.b with
-        | 0 => some x.k | 1 => some (2000 + x.k) | _ => none
-      hashable := fun x => x.b == 0 || x.b == 1
+        | 0 => some x.k | 1 => some (2000 + x.k) | 6 => some 3001 | _ => none
+      hashable := fun x => x.b == 0 || x.b == 1 || x.b == 6
       typed := typed
-      okItem := fun x => x.b == 0
+      okItem := fun x => x.b == 0 || x.b == 6
       okKey := isStrKey }
   | .tuple =>
     { keyOf := fun x => match x.b with
         | 0 => .ok x.k | 1 => .ok x.k | 2 => .ok (2000 + x.k) | 3 => .ok 3000
-        | 4 => .error .typeError | _ => .error .indexError
+        | 4 => .error .typeError | 6 => .ok 3001 | _ => .error .indexError
       asKey := fun x => match x.b with
         | 3 => some x.k | 4 => some (2000 + x.k) | _ => none
       hashable := fun x => x.b != 1
       typed := typed
-      okItem := fun x => x.b == 0 || x.b == 2 || x.b == 5
+      okItem := fun x => x.b == 0 || x.b == 2 || x.b == 5 || x.b == 6
       okKey := isStrKey }
   | .spec =>
     { keyOf := fun x => match x.b with
         | 0 => .ok x.k | 1 => .ok (4000 + 10 * x.k + x.p) | 2 => .ok (2000 + x.k) | 3 => .ok x.k
-        | _ => .error .typeError
+        | 6 => .ok 3001 | _ => .error .typeError
       asKey := fun x => match x.b with
         | 1 => some (4000 + 10 * x.k + x.p) | 3 => some x.k | _ => none
       hashable := fun x => x.b != 4
       typed := typed
-      okItem := fun x => x.b == 0 || x.b == 2
+      okItem := fun x => x.b == 0 || x.b == 2 || x.b == 6
       okKey := isStrKey }
   | .unhash =>
     { keyOf := fun x => match x.b with
         | 0 => .ok x.k | 1 => .ok x.k | 2 => .ok (2000 + x.k) | 3 => .ok 3000
-        | 4 => .error .typeError | _ => .error .indexError
+        | 4 => .error .typeError | 6 => .ok 3001 | _ => .error .indexError
       asKey := fun x => match x.b with
         | 3 => some x.k | 4 => some (2000 + x.k) | _ => none
       hashable := fun x => x.b == 1 || x.b == 3 || x.b == 4
       typed := typed
-      okItem := fun x => x.b == 0 || x.b == 2 || x.b == 5
+      okItem := fun x => x.b == 0 || x.b == 2 || x.b == 5 || x.b == 6
       okKey := isStrKey }
   | .ambig =>
     { keyOf := fun x => match x.b with
@@ -98,6 +100,15 @@ def mkCfg (u : Univ) (typed : Bool) : Cfg Val Int :=
       asKey := fun x => match x.b with
         | 0 => some (2000 + 10 * x.k + x.p) | _ => some x.k
       hashable := fun _ => true
+      typed := typed
+      okItem := fun x => x.b == 0
+      okKey := isIntKey }
+  | .bylen =>
+    { keyOf := fun x => match x.b with
+        | 0 => .ok (2000 + x.k) | 1 => .ok (2000 + x.k) | _ => .error .typeError
+      asKey := fun x => match x.b with
+        | 3 => some (2000 + x.k) | _ => none
+      hashable := fun x => x.b != 0
       typed := typed
       okItem := fun x => x.b == 0
       okKey := isIntKey }
